@@ -65,6 +65,15 @@ func c16Shapes() []*c16Case {
 		s.Rules[0].Action = " $$ = $1 + $3 "
 		s.Rules[1].Action = " $$ = $1 "
 		add(fmt.Sprintf("literal-%d", ch), s)
+		// the literal declared with a value tag on its %token line, its value read by the action
+		st := mk("TA")
+		st.Union = " v int "
+		st.HasUnion = true
+		st.Tokens = []gram.TokDecl{{Name: "TA", Tag: "v"}, {Name: lit, Tag: "v"}}
+		st.Types = []gram.TypeDecl{{Tag: "v", Names: []string{"S"}}}
+		st.Rules[0].Action = " $$ = $1 + $2 + $3 "
+		st.Rules[1].Action = " $$ = $1 "
+		add(fmt.Sprintf("literal-tagged-%d", ch), st)
 		// and only used in a rule, never declared
 		s2 := mk("TA")
 		add(fmt.Sprintf("literal-undeclared-%d", ch), s2)
